@@ -40,4 +40,5 @@ def run(ctx, rep):
     # I7: call sites and dispatch table come from one run: every file is written whatever the output folder already holds
     rep.run(RI.rule_one_run_writes_every_file, ctx, rep, "I7")
     rep.run(RI.rule_entry_describes_its_own_overload, ctx, rep, "I8")
+    rep.run(RI.rule_pointer_constructor_by_evaluation, ctx, rep, "I9")
     rep.run(RF.rule_locals_defined, ctx, rep, "U1", packages=("gtwrap/matlab_wrapper",), min_functions=3)
